@@ -49,3 +49,19 @@ Print Assumptions C15_stops_at_nth_match.
 Example C15_stream_example :
   stream_find [7; 7]%Z 100%Z [1; 2; 7; 7; 3; 7; 7; 7; 9; 7; 7]%Z 2 = Some ([102; 105]%Z, 7).
 Proof. vm_compute. reflexivity. Qed.
+
+(* the three pieces together (SearchDemand.v): a forward search over the window starting at idx, fed by memoizer.Scan
+   and stopped after its n-th match, reports the first n occurrences, and every index it makes the memoizer wait
+   for is at most idx + c - the position just after the last digit of the n-th occurrence.  By C15_consulted the
+   source has then been consulted for at most that position + B digits. *)
+Require SearchDemand LayerC Demand.
+Theorem C15_search_stops_at_answer : forall (D : nat -> option nat), (forall i, D i = None -> D (S i) = None) ->
+  forall (W : nat -> nat -> nat * bool), (forall c i, LayerC.WaitOK D i (W c i)) ->
+  forall pat (w : list Z) n cnt idx limit, 1 <= length pat ->
+  exists c, stream_find pat (Z.of_nat idx) w n = Some (firstn n (occ_fwd pat (Z.of_nat idx) w), c) /\
+    (forall x, In x (Demand.scan_demand W c cnt idx limit) -> x <= idx + c) /\
+    (0 < n <= length (occ_fwd pat (Z.of_nat idx) w) ->
+       Z.of_nat (idx + c) = (nth (n - 1) (occ_fwd pat (Z.of_nat idx) w) (-1) + Z.of_nat (length pat))%Z) /\
+    (length (occ_fwd pat (Z.of_nat idx) w) < n -> c = length w).
+Proof. exact SearchDemand.search_stops_at_answer. Qed.
+Print Assumptions C15_search_stops_at_answer.
